@@ -92,6 +92,15 @@ CHECKS = {
     'C13': ('runtime monitoring: direct calls of the real MemA/MemU entry points over the full (size, offset, E, A, U, arch, privilege) matrix vs the reference memory model; store/load round trip; fetch-endianness monitor',
             'All 1536 cells visited; value, byte-exact RAM diff, fault kind and DFSR/DFAR compared.',
             'Trusted: vf/ref/mem.py.', 'DESIGN.md §2 C13'),
+    'C11': ('runtime monitoring: direct calls of every take_*_exception / take_reset and SVC/UDF instructions from randomly composed valid states, full post-state compared with the reference entry procedures',
+            'Kind x source mode x T/IT x masks x SCTLR/SCR/HCR/HSCTLR bits x vector bases x PC x three extension configurations, all factors independent random (47k entries quick); routes observed are listed in the evidence.',
+            'Trusted: vf/ref/model.py exception entry (B1.9).', 'DESIGN.md §2 C11'),
+    'C14': ('runtime monitoring: translate_address() on generated MPU region sets vs an independent region matcher (decision, fault kind, DFSR/DFAR) + lock-step of load/store families with the MPU on',
+            'Boundary-biased addresses around every generated region/subregion edge; aborts at any position of multi-word transfers compared incl. abort bookkeeping.',
+            'Trusted: vf/ref/mem.py translate_p/check_permission.', 'DESIGN.md §2 C14'),
+    'C15': ('runtime monitoring: translate_address() on generated short-descriptor page tables written into RAM vs an independent walker + lock-step of loads/stores with the MMU on',
+            'All descriptor types, TTBCR.N, PD0/PD1, DACR, AFE, TRE, EE, FCSE sampled; physical address or fault kind/level/domain/DFAR compared. Long-descriptor and stage-2 walks are not judged.',
+            'Trusted: vf/ref/mem.py walk_sd/translate_v.', 'DESIGN.md §2 C15'),
 }
 
 NOT_APPLICABLE = {}
